@@ -39,3 +39,33 @@ PROPS["C03"] = dict(
              thorough=dict(shards=16, timeout=3000, env=dict(VERIF_C03_MAXLEN=6))),
     ],
 )
+
+PROPS["C04"] = dict(
+    level="exploration", engine="E1 unit + E2 pair",
+    technique="property-based testing (rapid): round-trip and streaming round-trip oracles over generated escape tables, cuts and buffer sizes; wire-level protected-byte scan on real transfers",
+    level_text="Random search over (announced table, payload, producer write sizes, cut points of the escaped stream including inside "
+               "a leader/code pair, consumer buffer sizes, zstd in front) with round-trip, no-protected-byte and reject-undefined-pair "
+               "oracles; all 1- and 2-byte payloads enumerated for both built-in tables; wire-level scan of everything an uploading "
+               "client writes on real pair-engine transfers.",
+    level_note="Tables are generated in the form servers announce (leader 0xEE present, distinct sources, distinct codes none of which "
+               "is a protected byte). Zero-length reads and source chunks >= the reader's 32 KiB buffer are out of domain.",
+    rule="non-trivial = payload contains a protected byte or the leader AND (a cut falls between a leader and its code, or zstd "
+         "sits in front of the escaper); distinct by SHA-1 of the case JSON",
+    tests=[
+        dict(name="TestVF_C04", quick=dict(checks=60000, shards=8, timeout=300), thorough=dict(checks=3000000, shards=16, timeout=3000)),
+        dict(name="TestVF_C04AllBytes", rapid=False, quick=dict(shards=1, timeout=300), thorough=dict(shards=1, timeout=600)),
+    ],
+)
+
+PROPS["C20"] = dict(
+    level="exploration", engine="E1 unit",
+    technique="property-based testing (rapid): generated event sequences and clock against a width / percentage parser oracle",
+    level_text="Random search over (width 1..500, pane mode, tmux control-mode prefix, colour pair, file count, names of every display-width "
+               "class, sizes to 2^62 and negative, step sequences with repeats, regressions and values beyond the size, resume pre-size, "
+               "a generated clock from 0 elapsed to 400 days, resizes, pause) with an oracle that strips control sequences and measures "
+               "display width with go-runewidth, parses the percentage and checks 0..100 and monotonicity within a file.",
+    level_note="Display width is defined by mattn/go-runewidth (the measure the renderer itself uses). Width and percentage claims are made "
+               "for widths >= 5; monotonicity only while the total size of the current file is constant (cooperative caller sequences).",
+    rule="non-trivial = >=2 rendered progress lines checked and >=2 step events; distinct by SHA-1 of the case JSON",
+    tests=[dict(name="TestVF_C20", quick=dict(checks=80000, shards=8, timeout=300), thorough=dict(checks=4000000, shards=16, timeout=3000))],
+)
